@@ -2,7 +2,7 @@ use crate::utils::{arb_arc, arb_rwlock, opt_hash, opt_packing_depth, opt_packing
 use crate::{Arc, Error, Leaf, PackedLeaf, UpdateMap, Value};
 use arbitrary::Arbitrary;
 use educe::Educe;
-use ethereum_hashing::{hash32_concat, ZERO_HASHES};
+use ethereum_hashing::{hash32_concat, ZERO_HASHES, ZERO_HASHES_MAX_INDEX};
 use parking_lot::RwLock;
 use std::collections::BTreeMap;
 use std::collections::HashMap;
@@ -505,6 +505,21 @@ impl<T: Value> Tree<T> {
     }
 }
 
+/// Hash of a subtree of `depth` containing only zero leaves.
+///
+/// The precomputed table covers depths up to `ZERO_HASHES_MAX_INDEX`, trees may be deeper.
+fn zero_hash(depth: usize) -> Hash256 {
+    if depth <= ZERO_HASHES_MAX_INDEX {
+        Hash256::from(ZERO_HASHES[depth])
+    } else {
+        let mut hash = ZERO_HASHES[ZERO_HASHES_MAX_INDEX];
+        for _ in ZERO_HASHES_MAX_INDEX..depth {
+            hash = hash32_concat(&hash, &hash);
+        }
+        Hash256::from(hash)
+    }
+}
+
 impl<T: Value + Send + Sync> Tree<T> {
     pub fn tree_hash(&self) -> Hash256 {
         match self {
@@ -530,7 +545,7 @@ impl<T: Value + Send + Sync> Tree<T> {
                 }
             }
             Self::PackedLeaf(leaf) => leaf.tree_hash(),
-            Self::Zero(depth) => Hash256::from(ZERO_HASHES[*depth]),
+            Self::Zero(depth) => zero_hash(*depth),
             Self::Node { hash, left, right } => {
                 let read_lock = hash.read();
                 let existing_hash = *read_lock;
